@@ -212,18 +212,6 @@ def check(prop, tier, only=None, list_only=False):
             if st != expect:
                 machinery_errors.append("selftest %s %r: native %s, expected %s: %s" % (qid, args, st, expect, detail))
 
-    # CrossHair builds its Unicode tables on first use of str.lower/strip/isspace/splitlines on symbolic text (~7 CPU s)
-    # and caches them per process: build them once here, before the workers are forked
-    def _warm(s: str):
-        engine.assume(len(s) == 1)
-        s.lower().strip().splitlines()
-        s.upper().title().isdigit()
-        return None
-    try:
-        engine.explore("warm", _warm, timeout=40)
-    except Exception as e:  # noqa
-        machinery_errors.append("warm-up failed: %r" % (e,))
-
     results = {}
     jobs = [(q, []) for q in qs]
     rounds = 0
